@@ -132,12 +132,12 @@ RunResult run(J const &plan) {
   std::unique_ptr<Engine> e(new Engine(ec));
   e->configure(config);
   long cur = 0;
-  long resume_step = -1;     // records with step > resume_step (after a resume) are compared with tolerance
+  long resume_step = -1; long first_resume_step = 0; std::vector<long> resume_steps;     // records with step > resume_step (after a resume) are compared with tolerance
   bool resumed = false;
   std::string kinds;
   std::string last_end = "graceful";
   int n_resumes = 0;
-  bool ref_degenerate = false;
+  bool ref_degenerate = false, stop_here = false;
   auto close_bias = [&](std::vector<double> const &a, std::vector<double> const &b, Tol t, size_t &bad) {
     if (a.size() != b.size()) { bad = (size_t)-1; return false; }
     double scale = max_abs(b);
@@ -184,7 +184,7 @@ RunResult run(J const &plan) {
       if (!resumed) { tt.rtol = 0; tt.atol = 0; }
       // a fictitious coordinate next to non-smooth biases (a ratchet, walls) amplifies the rounding of the state text without bound:
       // a lost piece of state shows within the first steps after the resume (compared at 1e-6); later steps only at 1e-2
-      else if (amplified && t.step > resume_step + 5) {
+      else if (amplified && t.step > first_resume_step + 5) {   // (counted from the FIRST resume: a later one starts from a run that has legitimately drifted already)
         // (with a ratchet or walls the amplification has no bound at all — 12% after 85 steps was observed: not compared)
         if (config.find("abmd {") != std::string::npos || config.find("harmonicWalls {") != std::string::npos) continue;
         tt.rtol = 1e-2; tt.atol = 1e-3;
@@ -227,6 +227,11 @@ RunResult run(J const &plan) {
         if (getenv("CVSIM_DEBUG")) { std::string st; fs().get(state_path, st); fprintf(stderr, "---- state %s ----\n%s\n----\n", state_path.c_str(), st.c_str()); }
         int err = e->load_state(prefix);
         if (err != COLVARS_OK || cvm::get_error()) {
+          // a scenario whose reference has already blown up (an unstable fictitious coordinate: energies inf, work nan) writes "nan" into
+          // its state, which cannot be read back: degenerate, nothing to compare with
+          bool blown = false;
+          for (size_t q = 0; q < ref.size() && !blown; q++) { blown = !std::isfinite(ref[q].energy); for (double v : ref[q].cv) blown = blown || !std::isfinite(v); }
+          if (blown) { res.counters["probe.ref_not_finite"]++; ref_degenerate = true; stop_here = true; break; }
           res.fail("resume_equiv", "load_error", "loading " + state_path + ": " + e->last_error());
           break;
         }
@@ -249,11 +254,13 @@ RunResult run(J const &plan) {
         cur = 0;   // nothing on disk: the job starts over
         res.counters["probe.resume_without_state"]++;
       }
+      if (!resumed) first_resume_step = cur;
+      resume_steps.push_back(cur);
       resumed = true;
       resume_step = cur;
     }
   }
-  if (!res.violation && cur < T) {
+  if (!res.violation && cur < T && !stop_here) {
     size_t from = e->rec.size();
     e->run((int)(T - cur), true);
     cur = T;
@@ -274,7 +281,16 @@ RunResult run(J const &plan) {
   res.counters[ec.binary_state ? "probe.binary_state" : "probe.text_state"]++;
   res.counters[ec.forces_late ? "probe.forces_late" : "probe.forces_same_step"]++;
   res.fingerprint = fp;
-  if (res.violation) res.features = config_features(config) + (ec.binary_state ? "+binary" : "");
+  if (res.violation) {
+    res.features = config_features(config) + (ec.binary_state ? "+binary" : "");
+    // did a run resume at a step that is not a multiple of some timeStepFactor?  (the trigger of the recorded finding C03-MTS-RESTART)
+    bool off = false;
+    for (size_t p = config.find("timeStepFactor "); p != std::string::npos; p = config.find("timeStepFactor ", p + 1)) {
+      long n = atol(config.c_str() + p + 15);
+      for (long rs : resume_steps) if (n > 1 && rs % n != 0) off = true;
+    }
+    if (off) res.features += "+mts_resume_off_multiple";
+  }
   sim.finish(res);
   return res;
 }
